@@ -1,9 +1,14 @@
 package iter
 
 import (
+	"bytes"
+	"context"
 	"fmt"
 	"math"
+	"runtime/pprof"
+	"strings"
 	"testing"
+	"time"
 
 	"github.com/ipfs/go-cid"
 	mh "github.com/multiformats/go-multihash"
@@ -22,13 +27,14 @@ func TestMain(m *testing.M) { ev.Main(m) }
 type c15Prog struct {
 	World   sim.Prog   `json:"world"`
 	Replica int        `json:"replica"`
-	Upper   string     `json:"upper"`          // none | lte | lt | lte-unknown | lt-unknown
-	UpperIx []int      `json:"upperIx"`        // indices into the replica's entries (mod)
-	Lower   string     `json:"lower"`          // none | gte | gt
-	LowerIx int        `json:"lowerIx"`        // index into the expected range (mod)
-	Amount  int        `json:"amount"`         // -1: no amount; else candidate selector
-	Merge   bool       `json:"merge"`          // the chosen replica first merges every other replica (forked log)
-	More    []c15Query `json:"more,omitempty"` // further queries on the SAME log object, each after a generated step (nothing, an append, a merge, a failing query, the same query again)
+	Upper   string     `json:"upper"`            // none | lte | lt | lte-unknown | lt-unknown
+	UpperIx []int      `json:"upperIx"`          // indices into the replica's entries (mod)
+	Lower   string     `json:"lower"`            // none | gte | gt
+	LowerIx int        `json:"lowerIx"`          // index into the expected range (mod)
+	Amount  int        `json:"amount"`           // -1: no amount; else candidate selector
+	Merge   bool       `json:"merge"`            // the chosen replica first merges every other replica (forked log)
+	Stream  int        `json:"stream,omitempty"` // k > 0: at the end the log is iterated once more, on a goroutine of its own, into an UNBUFFERED channel whose consumer appends to the log after each of the first k entries it receives
+	More    []c15Query `json:"more,omitempty"`   // further queries on the SAME log object, each after a generated step (nothing, an append, a merge, a failing query, the same query again)
 }
 
 // c15Query is one set of iterator options (same encoding as the fields of c15Prog) and what happens before it.
@@ -63,6 +69,9 @@ func genC15(t *rapid.T) c15Prog {
 			LowerIx: rapid.IntRange(0, 1<<16).Draw(t, "lowerIx"),
 			Amount:  rapid.OneOf(rapid.Just(-1), rapid.IntRange(0, 1<<16), rapid.IntRange(0, 1<<16)).Draw(t, "amount"),
 		})
+	}
+	if rapid.IntRange(0, 5).Draw(t, "stream") == 0 {
+		p.Stream = rapid.IntRange(1, 3).Draw(t, "streamAppends")
 	}
 	return p
 }
@@ -131,7 +140,75 @@ func runC15(tb ev.TB, p c15Prog) ev.Result {
 		cl = append(cl, "further-query-after-"+q.Between)
 		_ = cl2
 	}
+	if p.Stream > 0 && len(r.Model) > 0 {
+		cl = append(cl, "streamed-to-a-consumer-that-appends")
+		streamCheck(tb, w, r, p.Stream)
+	}
 	return ev.Result{NonTrivial: nt, Classes: cl}
+}
+
+// streamCheck: the iteration runs on its own goroutine and hands its entries over an unbuffered channel; the consumer
+// appends to the same log after each of the first k entries. The iteration must still end (channel closed, nil
+// returned) and deliver the range the log held when it started, newest first.
+func streamCheck(tb ev.TB, w *sim.World, r *sim.Replica, k int) {
+	l := r.Log
+	model := r.Model.Clone()
+	strict := w.Reg.StrictTotalOn(w.Order, model)
+	want := reverse(w.Reg.RefSort(w.Order, model))
+	ch := make(chan iface.IPFSLogEntry)
+	ret := make(chan error, 1)
+	go func() { ret <- l.Iterator(&ipfslog.IteratorOptions{}, ch) }()
+	type outcome struct {
+		got []string
+		err error
+	}
+	fin := make(chan outcome, 1)
+	go func() {
+		var got []string
+		for e := range ch {
+			got = append(got, e.GetHash().String())
+			if len(got) <= k {
+				if ne, err := l.Append(context.Background(), []byte(fmt.Sprintf("while-iterating-%d", len(got))), nil); err == nil {
+					w.Reg.Record(ne)
+					r.Model.Add(ne.GetHash().String())
+				}
+			}
+		}
+		fin <- outcome{got, <-ret}
+	}()
+	select {
+	case o := <-fin:
+		if o.err != nil {
+			tb.Fatalf("iteration streamed to a consumer that appends returned %v", o.err)
+		}
+		seen := world.Set{}
+		for _, h := range o.got {
+			if seen.Has(h) {
+				tb.Fatalf("streamed iteration emitted %s twice", world.Short(h))
+			}
+			seen.Add(h)
+		}
+		// what the log held when the iteration started must all be there (entries appended meanwhile may or may not)
+		for h := range model {
+			if !seen.Has(h) {
+				tb.Fatalf("streamed iteration did not deliver %s, which the log held when it started (%d delivered, %d held)", world.Short(h), len(o.got), len(model))
+			}
+		}
+		if strict && len(o.got) == len(want) && !world.EqualStrings(o.got, want) {
+			tb.Fatalf("streamed iteration not newest first:\n got  %v\n want %v", world.Shorts(o.got), world.Shorts(want))
+		}
+	case <-time.After(30 * time.Second):
+		var buf bytes.Buffer
+		_ = pprof.Lookup("goroutine").WriteTo(&buf, 2)
+		dump := buf.String()
+		if strings.Contains(dump, "go-ipfs-log.(*IPFSLog).Iterator") && strings.Contains(dump, "go-ipfs-log.(*IPFSLog).Append") && strings.Contains(dump, "sync.(*RWMutex)") {
+			if len(dump) > 5000 {
+				dump = dump[:5000]
+			}
+			tb.Fatalf("iteration did not end within 30s: the iterator is parked on its output channel while its consumer waits for the log's lock in Append:\n%s", dump)
+		}
+		// slow machine: no verdict
+	}
 }
 
 // runQuery runs one iterator query on replica r and checks its outcome against the registry.
